@@ -128,6 +128,9 @@ impl EventSender<'_> {
         // for a coroutine that got cancelled after the check above yield_with comes
         // back without publishing the event: the bottom half must not run then
         if !self.sent.load(Ordering::Relaxed) {
+            // clear the error that yield_with has left for us, it would reach the
+            // next coroutine that reuses this instance
+            crate::yield_now::get_co_para();
             crate::cancel::trigger_cancel_panic();
         }
     }
